@@ -1488,7 +1488,12 @@ chkpnt1(uid_t u)
 	if (UNLIKELY(!inittedp)) {
 		echs_icalify_init(fd, (echs_instruc_t){INSVERB_UNK});
 	}
-	echs_icalify_fini(fd);
+	if (echs_icalify_fini(fd) < 0) {
+		/* incomplete, keep the old one */
+		(void)close(fd);
+		(void)unlinkat(qdirfd, fn, 0);
+		goto err;
+	}
 	if (close(fd) < 0 || renameat(qdirfd, fn, qdirfd, fn + 1) < 0) {
 		int x = errno;
 		(void)unlinkat(qdirfd, fn, 0);
@@ -1513,6 +1518,7 @@ chkpnta(void)
 	ndnd_t *snds;
 	size_t nsnds = 0UL;
 	size_t zsnds = countof(chkpnts);
+	bool incompl = false;
 	int rc = 0;
 
 	if (UNLIKELY((snds = malloc(zsnds * sizeof(*snds))) == NULL)) {
@@ -1574,6 +1580,13 @@ chkpnta(void)
 		/* let evical module handle the printing */
 		echs_task_icalify(fd, task_ht[i].t->t);
 	}
+	/* the writes to the files were interleaved, so finish them all
+	 * first to see if any of them is incomplete */
+	for (size_t i = 0U; i < nsnds; i++) {
+		if (LIKELY(!(snds[i].fd < -1))) {
+			incompl |= echs_icalify_fini(snds[i].fd) < 0;
+		}
+	}
 	for (size_t i = 0U; i < nsnds; i++) {
 		const int fd = snds[i].fd;
 		const uid_t u = snds[i].key;
@@ -1587,9 +1600,15 @@ chkpnta(void)
 			}
 			break;
 		}
-		echs_icalify_fini(fd);
 		if (snprintf(fn, sizeof(fn), ".echsq_%u.ics", u) < 0) {
 			/* oh fuck, there's really nothing we can do */
+			rc = -1;
+			continue;
+		}
+		if (UNLIKELY(incompl)) {
+			/* keep the old ones */
+			(void)close(fd);
+			(void)unlinkat(qdirfd, fn, 0);
 			rc = -1;
 			continue;
 		}
